@@ -89,7 +89,9 @@ def param_convert(tool, a, b, fa, fb, nrec, plen=800):
         m = M()
         ns = [sym_int('rec%d_len' % i, 1, plen) for i in range(nrec)]
         texts = [Source('prec%d' % i, 't', n).rope() for i, n in enumerate(ns)]
-        rp = {'kind': 'param', 'args': {'tool': tool, 'a': a, 'b': b, 'fa': fa, 'fb': fb, 'lens': [ev(n) for n in ns]}}
+        def rp():
+            return {'kind': 'param', 'args': {'tool': tool, 'a': a, 'b': b, 'fa': fa, 'fb': fb, 'lens': [ev(n) for n in ns],
+                                             'texts': [concretize(t, ev) for t in texts]}}
         src = RopeFile()
         w = m.mciipm.VbsWriter(src, blocked=fa)
         for t in texts:
@@ -116,12 +118,13 @@ def param_convert(tool, a, b, fa, fb, nrec, plen=800):
             req_eq(r.decode(b), t, 'record %d decoded under B differs from the input decoded under A' % (i + 1), key='C19/value', replay=rp)
         core.FUEL.set(40)
         back = RopeFile()
-        if tool == 'mci_ipm_param_encode':
-            m.mci_ipm_param_encode.mci_ipm_param_encode(RopeFile(converted), back, in_encoding=b, out_encoding=a, in_format=fmt(fb), out_format=fmt(fa))
-        else:
-            m.paramconv.mci_ipm_param_encode(RopeFile(converted), back, in_encoding=b, out_encoding=a, blocked=fb)
+        with guard(tool + ' (return conversion)', 'C19/exception', rp):
+            if tool == 'mci_ipm_param_encode':
+                m.mci_ipm_param_encode.mci_ipm_param_encode(RopeFile(converted), back, in_encoding=b, out_encoding=a, in_format=fmt(fb), out_format=fmt(fa))
+            else:
+                m.paramconv.mci_ipm_param_encode(RopeFile(converted), back, in_encoding=b, out_encoding=a, blocked=fb)
         req_eq(back.getvalue(), original, 'converting back does not reproduce the original file', key='C19/reversible', replay=rp)
-        return {'sample': rp['args'], 'replay': rp}
+        return {'sample': {k: v for k, v in rp()['args'].items() if k != 'texts'}, 'replay': rp()}
     return h
 
 
